@@ -222,7 +222,20 @@ fn gen_c04(rng: &mut Rng, _tier: Tier, faults: bool) -> LoopScn {
         s.sample_size = s.sample_size.map(|x| x.min(1));
     }
     s.skip_ext = *rng.pick(&[None, Some(false), Some(true), Some(true)]);
-    let e_ns = ticks_to_ns(est_round_ticks(&s), s.clock.frequency).max(1);
+    // What one round adds to the elapsed time (lower estimate): the whole
+    // round, or with skip_ext_time only the timed section — which on a
+    // quantised clock may read as zero and then counts as 1 ns.
+    let e_ns = if s.skip_ext == Some(true) {
+        let timed = s.sample_size.unwrap_or(1).max(1) as u128
+            * match s.cost_call {
+                Cost::Noisy { base, .. } => base as u128,
+                ref c => c.eval(0, 0) as u128,
+            };
+        let timed = if timed < 2 * s.clock.step as u128 { 0 } else { timed - s.clock.step as u128 };
+        ticks_to_ns(timed, s.clock.frequency).max(1)
+    } else {
+        ticks_to_ns(est_round_ticks(&s), s.clock.frequency).max(1)
+    };
     let mult = |rng: &mut Rng, ks: &[u128]| {
         let k = *rng.pick(ks);
         ns(e_ns * k / 2 + rng.below(3) as u128)
@@ -240,18 +253,7 @@ fn gen_c04(rng: &mut Rng, _tier: Tier, faults: bool) -> LoopScn {
         4 => Some((0, 1)),
         _ => Some(mult(rng, &[1, 2, 4, 8, 16, 30])),
     };
-    // min_time alone must not drive more than a couple of thousand rounds.
-    if let (Some(mn), true) = (s.min_time, s.max_time.is_none() || s.max_time > s.min_time) {
-        let mn_ns = mn.0 as u128 * 1_000_000_000 + mn.1 as u128;
-        let per_round = if s.skip_ext == Some(true) {
-            ticks_to_ns(s.sample_size.unwrap_or(1).max(1) as u128 * s.cost_call.eval(0, 0).max(1) as u128, s.clock.frequency).max(1)
-        } else {
-            e_ns
-        };
-        if mn_ns / per_round > 400 {
-            s.min_time = Some(ns(per_round * 40));
-        }
-    }
+    // (Both limits are at most 30 / 20 estimated rounds by construction.)
     if faults {
         let rt = est_round_ticks(&s);
         gen_clock_faults(rng, &mut s, rt);
@@ -546,6 +548,14 @@ impl Case for LoopScn {
         LoopScn::execute(self, cfg.seed, cfg.strategy)
     }
     fn check(&self, prop: Prop, r: &RunResult, out: &LoopOut) -> Vec<Violation> {
+        // Time-limited families: exhausting the step budget is judged by the
+        // rule itself (see `judge_step_budget`).
+        if matches!(r.failure, Some(dsim::Failure::NoProgress { .. }))
+            && matches!(prop, Prop::C04 | Prop::C05 | Prop::C11 | Prop::C19)
+            && (self.min_time.is_some() || self.max_time.is_some() || self.sample_size.is_none())
+        {
+            return loopcheck::judge_step_budget(self, r);
+        }
         match prop {
             Prop::C01 => loopcheck::check_c01(self, r, out),
             Prop::C02 => loopcheck::check_c02(self, r, out),
@@ -612,6 +622,9 @@ impl Case for LoopScn {
         }
         if r.precision_reads > 0 {
             h.push("precision_measured_on_virtual_clock");
+        }
+        if matches!(r.failure, Some(dsim::Failure::NoProgress { .. })) {
+            h.push("step_budget_exhausted");
         }
         if self.prelude_threads > 0 {
             h.push("followed_an_earlier_benchmark_on_the_same_pool");
